@@ -124,6 +124,9 @@ fn witnesses() -> Vec<(&'static str, &'static str, &'static str)> {
         ("variant-vs-reference-cell-struct", "enum Tag { ref_int32_x(int32), Other(int32) }\nfn g(t: Tag) -> int32 { match t { Tag::ref_int32_x(k) => k, Tag::Other(v) => v } }\nfn main() { let r = ref(5); string_println(int32_to_string(g(Tag::ref_int32_x(1)) + g(Tag::Other(2)) + ref_get(r))) }\n", "8\n"),
         ("variant-vs-trait-object-struct", "trait Tr { fn m(Self) -> int32; }\nimpl Tr for int32 { fn m(self: int32) -> int32 { self } }\nenum Tag { dyn__Tr, Other(int32) }\nfn g(t: Tag) -> int32 { match t { Tag::dyn__Tr => 1, Tag::Other(v) => v } }\nfn main() { let d: dyn Tr = 5; string_println(int32_to_string(g(Tag::dyn__Tr) + g(Tag::Other(2)) + Tr::m(d))) }\n", "8\n"),
         ("variant-vs-enum-instance", "enum Opt[T] { Non, Som(T) }\nenum Tag { Opt__int32, Other(int32) }\nfn g(t: Tag) -> int32 { match t { Tag::Opt__int32 => 1, Tag::Other(v) => v } }\nfn main() { let o: Opt[int32] = Opt::Som(5); let k = match o { Opt::Som(v) => v, Opt::Non => 0 }; string_println(int32_to_string(g(Tag::Opt__int32) + g(Tag::Other(2)) + k)) }\n", "8\n"),
+        // a function-typed local of a library named like a generic function of Main (the library's temporaries are numbered
+        // when the library is built, before Main's items are known)
+        ("library-temporary-vs-generic-fn-of-main", "package Main\nimport Lib\n\nfn x0[T](a: T) -> T { a }\nfn main() {\n    string_println(int32_to_string(x0(5)));\n    string_println(int32_to_string(Lib::sel((|v: int32| v * 2, 21))))\n}\n//// FILE Lib/lib.gom\npackage Lib\n\nfn sel(p: ((int32) -> int32, int32)) -> int32 { match p { (f, n) => f(n) } }\n", "5\n42\n"),
         ("two-instances-of-one-spelling", "struct X__B_Y { a: int32 }\nstruct Z { a: int32 }\nstruct X { a: int32 }\nstruct Y__B_Z { a: int32 }\nfn first[A, B](a: A, b: B) -> A { a }\nfn main() { let p = first(X__B_Y { a: 1 }, Z { a: 2 }); let q = first(X { a: 3 }, Y__B_Z { a: 4 }); string_println(int32_to_string(p.a) + int32_to_string(q.a)) }\n", "13\n"),
         ("tuple-struct-vs-user-struct", "struct Tuple2_int32_bool { k: int32 }\nfn main() { let t = (1, true); let u = Tuple2_int32_bool { k: 2 }; string_println(int32_to_string(t.0 + u.k)) }\n", "3\n"),
         ("closure-env-vs-user-struct", "struct closure_env_f_0 { k: int32 }\nfn main() { let z = 1; let f = |q: int32| q + z; let u = closure_env_f_0 { k: 2 }; string_println(int32_to_string(f(3) + u.k)) }\n", "6\n"),
@@ -341,6 +344,10 @@ impl Family for NamesFamily {
                         v.push(json!({"kind": "temp-number", "prefix": prefix, "n": n, "decoy": decoy, "place": place}));
                     }
                 }
+                // a generic function of Main spelled like a temporary of a library whose temporaries hold functions
+                if n <= 45 {
+                    v.push(json!({"kind": "temp-number-generic", "prefix": prefix, "n": n}));
+                }
             }
         }
         for (d, _) in duplicates() {
@@ -432,6 +439,19 @@ impl Family for NamesFamily {
             let (w, c) = (case["name"].as_str().unwrap(), case["closure"].as_bool().unwrap_or(false));
             let (t, e) = rebinding_program(w, c);
             (t, e, format!("rebinding={}{}", w, if c { ";innermost-in-closure" } else { "" }))
+        } else if case["kind"] == "temp-number-generic" {
+            let (prefix, n) = (case["prefix"].as_str().unwrap(), case["n"].as_u64().unwrap());
+            let item = format!("{}{}", prefix, n);
+            let mut body = String::new();
+            for i in 0..6 {
+                body.push_str(&format!("    let f{i} = |q: int32| q + {k};\n    let p{i} = match (f{i}, g({i})) {{ (h, m) => h(m) }};\n", i = i, k = i + 1));
+            }
+            let text = format!(
+                "package Main\nimport Lib\n\nfn {item}[T](a: T) -> T {{ a }}\nfn main() {{\n    string_println(int32_to_string(Lib::busy(1) + {item}(7)))\n}}\n//// FILE Lib/lib.gom\npackage Lib\n\nfn g(a: int32) -> int32 {{ a }}\nfn busy(x: int32) -> int32 {{\n{body}    p0 + p1 + p2 + p3 + p4 + p5 + x\n}}\n",
+                item = item,
+                body = body
+            );
+            (text, "44\n".to_string(), format!("temp-number-generic;prefix={};n={}", prefix, n))
         } else if case["kind"] == "temp-number" {
             let (prefix, n, decoy, place) = (case["prefix"].as_str().unwrap(), case["n"].as_u64().unwrap(), case["decoy"].as_str().unwrap(), case["place"].as_str().unwrap());
             let item = format!("{}{}", prefix, n);
